@@ -201,6 +201,10 @@ func c17Check(c *mon.Ctx, n *Node, o geojson.Object, members string, root interf
 	// append to a prefix with spare capacity and an alias
 	r := c.Rng
 	plen, spare := r.Intn(40), r.Intn(3)*r.Intn(len(j)+64)
+	if r.Intn(4) == 0 {
+		// long prefixes, also with very little spare capacity
+		plen, spare = 1000+r.Intn(40000), []int{0, 1, 17, 300}[r.Intn(4)]
+	}
 	backing := make([]byte, plen+spare)
 	for i := range backing {
 		backing[i] = byte('a' + i%26)
@@ -434,6 +438,10 @@ func c17Run(c *mon.Ctx) {
 		}
 		r := c.SubRng("obj", i)
 		o := &TreeOpts{Coord: c17Coord(i%3 != 0), MaxDepth: 1 + r.Intn(3), MaxKids: 1 + r.Intn(4), MaxPts: 2 + r.Intn(6), Empties: true}
+		if i%32 == 5 {
+			o.MaxPts = 64 + r.Intn(120) // large geometries
+			o.MaxKids = 2
+		}
 		root := randTree(r, o, 0)
 		// decorate features with member strings
 		root.Walk(func(m *Node) {
@@ -499,6 +507,7 @@ func c17Run(c *mon.Ctx) {
 			do := gen.DefaultDocOpts()
 			do.MaxDepth = 1 + r.Intn(3)
 			do.LongFirst = false
+			do.Overflow = i%2 == 0
 			txt := gen.Render(r, gen.GenDoc(r, do, 0), false, false)
 			c.SetCase(func() interface{} { return map[string]interface{}{"text": txt} })
 			c.Try(func() {
